@@ -4,7 +4,7 @@ import itertools
 
 from ..core import AnalysisError
 from ..cfront import strip, text
-from .. import ckern, xlayer, pyxread
+from .. import cq, pq, ckern, xlayer, pyxread
 from ..ceval import CEval, find_all, loop_parts, body_stmts, loop_var, stores_to
 from ..formula import Canon, Ratio, Undecided, show, num
 from ..pyfront import Mod, dotted, const_value
@@ -22,7 +22,7 @@ EXPLANATION = (
     "month and divides by days_in_month; the cubic branch's constraint matrix equals the f(0)=0, f(1)=y, f'(0), f'(1) "
     "system.  The sums themselves (floating point) and the cubic arithmetic are not decided.")
 
-NAN = ('sym', 'NAN')
+NAN = ('nan',)
 
 
 def int_decide(expr, op, rhs, facts):
@@ -60,10 +60,10 @@ def run(rep):
     rep.rule("R08.e", "monthly2daily: flat sentinel one calendar month after the last month, division by days_in_month; cubic constraint matrix")
     rep.assume("floating-point accumulation error is not decided; the reference semantics is the property's: reductions over non-missing inputs only")
     K = ckern.analyze(rep.repo)
-    agg = K["fns"].get("c_aggregate")
-    fh = K["fns"].get("c_flathomogen")
-    if agg is None or fh is None:
+    if K["fns"].get("c_aggregate") is None or K["fns"].get("c_flathomogen") is None:
         raise AnalysisError("data/c_dutils.c: c_aggregate / c_flathomogen not found")
+    agg = ckern.normalised(K, "c_aggregate", rep.repo)
+    fh = ckern.normalised(K, "c_flathomogen", rep.repo)
     file = agg["file"]
     rep.unit(f"{file}: c_aggregate, c_flathomogen; data/dutils.py: aggregate, flathomogen, monthly2daily")
 
@@ -77,15 +77,15 @@ def run(rep):
     stm = body_stmts(loop_parts(loop)[3])
     tail = top[top.index(loop) + 1:]
     # R08.a rejection first
-    rej = [k for k, s in enumerate(stm) if s.get("kind") == "IfStmt" and find_all(s, lambda n: n.get("kind") == "ReturnStmt")
-           and text(s["inner"][0]).replace(" ", "") in ("ia<iaprev", "iaprev>ia")]
+    def is_rejection(s, v):
+        return s.get("kind") == "IfStmt" and bool(find_all(s, lambda n: n.get("kind") == "ReturnStmt")) and \
+            (cq.same_cond(s["inner"][0], f"aggindex[{v}] < iaprev", True) or cq.same_cond(s["inner"][0], "ia < iaprev", True))
+    rej = [k for k, s in enumerate(stm) if is_rejection(s, iv)]
     first_change = min([k for k, s in enumerate(stm) if find_all(s, lambda n: n.get("kind") in ("CompoundAssignOperator",) or
                         (n.get("kind") == "UnaryOperator" and n.get("opcode") in ("++", "--")) or
                         (n.get("kind") == "BinaryOperator" and n.get("opcode") == "=" and text(n["inner"][0]) not in ("ia",)))] or [99])
     rep.check(bool(rej) and rej[0] <= first_change, "R08.a", file, "c_aggregate", "decreasing index rejected (error return) before any accumulation or store",
               f"rejection at statement {rej[0] if rej else None}, first state change at {first_change}", line=loop.get("_line"))
-    iadef = [s for s in stm if s.get("kind") == "BinaryOperator" and s.get("opcode") == "=" and text(s["inner"][0]) == "ia"]
-    rep.check(bool(iadef) and text(iadef[0]["inner"][1]).replace(" ", "") == f"aggindex[{iv}]", "R08.a", file, "c_aggregate", "ia = aggindex[i]", "", line=loop.get("_line"))
 
     nstep, bad = 0, []
     flush_seen = {}
@@ -140,7 +140,7 @@ def run(rep):
         ce = CEval(oracle, arrays)
         env = {"agg": ('sym', 'AGG0'), "nagg": ('sym', 'NA0'), "nagg_nan": ('sym', 'NN0'), "count": ('sym', 'COUNT0'),
                "iaprev": ('sym', 'IAPREV'), "nan": NAN, "ia": ('sym', 'IA0')}
-        stm2 = [s for s in stm if not (s.get("kind") == "IfStmt" and text(s["inner"][0]).replace(" ", "") in ("ia<iaprev", "iaprev>ia"))]
+        stm2 = [s for s in stm if not is_rejection(s, iv)]
         try:
             ce._walk(stm2, env, [])
         except Undecided as ex:
@@ -223,8 +223,7 @@ def run(rep):
     fi = loop_var(floop)
     fstm = body_stmts(loop_parts(floop)[3])
     ftail = ftop[ftop.index(floop) + 1:]
-    rej = [k for k, s in enumerate(fstm) if s.get("kind") == "IfStmt" and find_all(s, lambda n: n.get("kind") == "ReturnStmt")
-           and text(s["inner"][0]).replace(" ", "") in ("ia<iaprev", "iaprev>ia")]
+    rej = [k for k, s in enumerate(fstm) if is_rejection(s, fi)]
     rep.check(bool(rej) and rej[0] <= 1, "R08.a", file, "c_flathomogen", "decreasing index rejected before any accumulation or store", "", line=floop.get("_line"))
     badh, nh = [], 0
     wb_ref = {}
@@ -251,7 +250,7 @@ def run(rep):
         stm2 = []
         inner_loops = []
         for s in fstm:
-            if s.get("kind") == "IfStmt" and text(s["inner"][0]).replace(" ", "") in ("ia<iaprev", "iaprev>ia"):
+            if is_rejection(s, fi):
                 continue
             stm2.append(s)
         ce = CEval(oracle, {"aggindex": lambda idx: ('sym', 'IA'), "inputs": lambda idx: ('sym', 'INP')})
@@ -319,7 +318,7 @@ def run(rep):
             badt.append(str(ex))
             continue
         cn = Canon()
-        if wl is None or not writeback_ok(wl, env, NAN if X else ('sym', 'AGG0'), fi, cn):
+        if wl is None or not writeback_ok(wl, env, NAN if X else ('sym', 'AGG0'), fi, cn, final=True):
             badt.append(f"too-many-missing={X}: final write-back differs from the group-change write-back")
     rep.check(not badt, "R08.c", file, "c_flathomogen", "write-back at the end of the data == write-back at a group change", " | ".join(badt), line=floop.get("_line"))
 
@@ -338,47 +337,59 @@ def run(rep):
         rep.check(names.get("aggindex") == "aggindex" and names.get("inputs") == "inputs" and names.get("outputs") == "outputs", "R08.a", "data/dutils.py", shim,
                   "arguments bound to the same-named shim parameters", str(names), line=st[0].call.lineno)
     mod = Mod(rep.repo, "data/dutils.py")
-    af = mod.func("aggregate")
-    tr = [n for n in ast.walk(af) if isinstance(n, ast.Assign) and isinstance(n.targets[0], ast.Name) and n.targets[0].id == "outputs" and isinstance(n.value, ast.Subscript)]
-    rep.check(bool(tr) and ast.unparse(tr[-1].value).replace(" ", "") == "outputs[:iend[0]]", "R08.a", "data/dutils.py", "aggregate",
-              "outputs truncated to the number of groups reported by the kernel", ast.unparse(tr[-1].value) if tr else "", line=af.lineno)
+    st = [s_ for s_ in sites if s_.shim.name == "aggregate" and s_.func.name == "aggregate"][0]
+    af = st.func
+    paths, _before = pq.site_paths(st)
+    rets = [p_ for p_ in paths if p_.how == "return"]
+    oktr = bool(rets) and all(pq.same(p_.value, pq.kparse("K_outputs[:K_iend[0]]", ["outputs", "iend"])) for p_ in rets)
+    rep.check(oktr, "R08.a", "data/dutils.py", "aggregate", "outputs truncated to the number of groups reported by the kernel",
+              show(rets[-1].value)[:120] if rets else "", line=af.lineno)
     # monthly2daily
     md = mod.func("monthly2daily")
-    nx = [n for n in ast.walk(md) if isinstance(n, ast.Assign) and isinstance(n.targets[0], ast.Name) and n.targets[0].id == "nexti"]
-    okn = False
-    det = "sentinel statement not found"
-    if nx and isinstance(nx[0].value, ast.BinOp) and isinstance(nx[0].value.op, ast.Add):
-        l, r = nx[0].value.left, nx[0].value.right
-        det = ast.unparse(nx[0].value)
-        if ast.unparse(l).replace(" ", "") == "sec.index[-1]" and isinstance(r, ast.Call):
-            kws = {k.arg: const_value(k.value) for k in r.keywords}
-            okn = kws == {"months": 1} and not r.args
-    rep.check(okn, "R08.e", "data/dutils.py", "monthly2daily", "flat: sentinel appended exactly one calendar month after the last month", det, line=nx[0].lineno if nx else md.lineno)
-    dv = [n for n in ast.walk(md) if isinstance(n, ast.AugAssign) and isinstance(n.op, ast.Div) and isinstance(n.target, ast.Name) and n.target.id == "sed"]
-    rep.check(bool(dv) and ast.unparse(dv[0].value).replace(" ", "") == "sed.index.days_in_month", "R08.e", "data/dutils.py", "monthly2daily",
-              "flat: daily value = monthly value / days in month", ast.unparse(dv[0].value) if dv else "", line=md.lineno)
-    dl = [n for n in ast.walk(md) if isinstance(n, ast.Assign) and isinstance(n.targets[0], ast.Name) and n.targets[0].id == "sed" and "iloc[:-1]" in ast.unparse(n.value).replace(" ", "")]
-    rep.check(bool(dl), "R08.e", "data/dutils.py", "monthly2daily", "flat: the sentinel day is dropped", "", line=md.lineno)
-    mi = [n for n in ast.walk(md) if isinstance(n, ast.Assign) and isinstance(n.targets[0], ast.Name) and n.targets[0].id == "Mi"]
-    okm = False
-    if mi and isinstance(mi[0].value, ast.Call) and mi[0].value.args and isinstance(mi[0].value.args[0], ast.List):
-        rows = [[const_value(x) for x in r.elts] for r in mi[0].value.args[0].elts if isinstance(r, ast.List)]
-        okm = rows == [[0., 1., 0.], [3., -2., -1.], [-2., 1., 1.]]
-    rep.check(okm, "R08.e", "data/dutils.py", "monthly2daily", "cubic: coefficient matrix of the system f(0)=0, f(1)=y, f'(0)=d0, f'(1)=d1",
-              "f(t) = d0 t + (3y - 2 d0 - d1) t^2 + (-2y + d0 + d1) t^3", line=mi[0].lineno if mi else md.lineno)
-    ins = [n for n in ast.walk(md) if isinstance(n, ast.Call) and dotted(n.func) == "np.insert" and len(n.args) >= 3]
-    rep.check(bool(ins) and const_value(ins[0].args[1]) == 0 and const_value(ins[0].args[2]) == 0, "R08.e", "data/dutils.py", "monthly2daily",
-              "cubic: zero constant coefficient prepended (f(0) = 0)", "", line=md.lineno)
+    mpaths = pq.PEval().run(md)
+    flat = [p_ for p_ in mpaths if p_.how == "return" and any(t and show(c).replace(" ", "") in ("(interpolation=='flat')", "('flat'==interpolation)") for c, t in p_.conds)]
+    cubic = [p_ for p_ in mpaths if p_.how == "return" and any(t and "'cubic'" in show(c) for c, t in p_.conds)]
+    if len(flat) != 1 or len(cubic) != 1:
+        raise AnalysisError(f"data/dutils.py: monthly2daily: flat / cubic paths not found ({len(flat)}, {len(cubic)})")
+    fp, cp = flat[0], cubic[0]
+    sent = [e for e in fp.effects if e.kind == 'store' and e.val == ('nan',) and isinstance(e.key, tuple) and e.key[0] == 'add']
+    okn, det = False, "sentinel store not found"
+    if sent:
+        k = sent[-1].key
+        parts = [k[1], k[2]]
+        dl = [x for x in parts if pq.call_named(x, "f:delta") or pq.call_named(x, "f:relativedelta")]
+        ix = [x for x in parts if pq.call_named(x, "getitem") and pq.call_named(x[2][0], "attr:index") and pq.same(x[2][1], "-1")]
+        det = show(k)[-80:]
+        if len(dl) == 1 and len(ix) == 1:
+            kw = dict(dl[0][3]) if len(dl[0]) > 3 else {}
+            okn = not dl[0][2] and set(kw) == {"months"} and pq.same(kw["months"], "1")
+    rep.check(okn, "R08.e", "data/dutils.py", "monthly2daily", "flat: sentinel appended exactly one calendar month after the last month", det, line=md.lineno)
+    v = fp.value
+    okdrop = pq.call_named(v, "getitem") and pq.call_named(v[2][0], "attr:iloc") and pq.same(v[2][1], ('call', 'slice', (('sym', 'None'), pq.parse("-1"), ('sym', 'None'))))
+    rep.check(okdrop, "R08.e", "data/dutils.py", "monthly2daily", "flat: the sentinel day is dropped", show(v)[:60], line=md.lineno)
+    divs = pq.find(v, lambda e: e[0] == 'div' and pq.call_named(e[2], "attr:days_in_month") and pq.call_named(e[2][2][0], "attr:index") and
+                   pq.same(e[2][2][0][2][0], e[1]) and pq.call_named(e[1], ".ffill") and pq.call_named(e[1][2][0], ".resample"))
+    rep.check(bool(divs), "R08.e", "data/dutils.py", "monthly2daily", "flat: daily value = forward-filled monthly value / days in its month", "", line=md.lineno)
+    okm = "Mi" in cp.env and pq.same(cp.env["Mi"], "np.array([[0., 1., 0.], [3., -2., -1.], [-2., 1., 1.]])")
+    mats = pq.find(('tuple', tuple(x for x in cp.env.values() if isinstance(x, tuple))), lambda e: pq.call_named(e, "copy") and
+                   pq.same(e, "np.array([[0., 1., 0.], [3., -2., -1.], [-2., 1., 1.]])"))
+    rep.check(okm or bool(mats), "R08.e", "data/dutils.py", "monthly2daily", "cubic: coefficient matrix of the system f(0)=0, f(1)=y, f'(0)=d0, f'(1)=d1",
+              "f(t) = d0 t + (3y - 2 d0 - d1) t^2 + (-2y + d0 + d1) t^3", line=md.lineno)
+    ins = pq.find(('tuple', tuple(x for x in cp.env.values() if isinstance(x, tuple))), lambda e: pq.call_named(e, "insert") and len(e[2]) >= 3 and
+                  pq.call_named(e[2][0], "dot") and pq.same(e[2][1], "0") and pq.same(e[2][2], "0"))
+    rep.check(bool(ins), "R08.e", "data/dutils.py", "monthly2daily", "cubic: zero constant coefficient prepended (f(0) = 0)", "", line=md.lineno)
     return EXPLANATION
 
 
-def writeback_ok(wl, env, wb_val, outer_iv, cn):
+def writeback_ok(wl, env, wb_val, outer_iv, cn, final=False):
     """for(j=start; j<i; j++) outputs[j] = isnan(inputs[j]) ? nan : agg/nagg"""
-    init, cond, inc, body = loop_parts(wl)
-    jv = loop_var(wl)
-    it = text(init).replace(" ", "")
-    ct = text(cond).replace(" ", "")
-    if it != f"{jv}=start" or ct != f"{jv}<{outer_iv}":
+    lr = cq.loop_range(wl, ())
+    if lr is None or lr["lo"] is None or lr["hi"] is None or lr["step"] != 1 or lr["extra"]:
+        return False
+    jv = lr["var"]
+    body = lr["body"]
+    ends = [f"{outer_iv}-1"] + (["nval-1"] if final else [])      # after the main loop its counter equals nval
+    if not cq.same_expr(lr["lo"], "start") or not any(cq.same_expr(lr["hi"], e_) for e_ in ends):
         return False
     for isn in (True, False):
         ce = CEval(lambda c, isn=isn: isn if (c[0] == 'call' and c[1] == 'isnan') else None, {"inputs": lambda idx: ('sym', 'INPJ')})
@@ -388,7 +399,7 @@ def writeback_ok(wl, env, wb_val, outer_iv, cn):
         except Undecided:
             return False
         o = [e for e in ce.effects if e.arr == "outputs"]
-        if len(o) != 1 or show(o[0].idx) != jv:
+        if len(o) != 1 or not cq.same_expr(o[0].idx, ('sym', jv)):
             return False
         want = NAN if isn else ('div', wb_val, env.get("nagg", ('sym', 'NA0')))
         if isn:
